@@ -69,8 +69,10 @@ func count(s *Store, ctx context.Context, builders ...func(query *bun.SelectQuer
 	for _, builder := range builders {
 		query = query.Apply(builder)
 	}
+	// the sub-query is passed as an argument: its rendered text (which contains the
+	// client's filter values as literals) must not be scanned for placeholders again
 	return s.bucket.db.NewSelect().
-		TableExpr("(" + query.String() + ") data").
+		TableExpr("(?) data", query).
 		Count(ctx)
 }
 
